@@ -399,7 +399,7 @@ def pairing(F, R, readers, writers):
         dest_of = {b.blocks[bb]['term']['dest']['l']: bb for bb in pair_calls}
         for bb, t in b.calls():
             cp = callee_path(t) or ''
-            if cp.endswith('::insert') and 'HashMap' in cp:
+            if (cp.endswith('::insert') and 'HashMap' in cp) or (cp.endswith('::or_insert') and 'hash_map::Entry' in cp):
                 for a in t['args']:
                     half = half_of(b, a, dest_of)
                     if half is not None and half[1] == 0:
